@@ -33,6 +33,13 @@ ENDPOINT_FORMS = {
     "bare-data": ("data: /messages/?session_id=abc\n\n", BASE + "/messages/?session_id=abc"),
     "abs-path-crlf": ("event: endpoint\r\ndata: /messages/?session_id=abc\r\n\r\n", BASE + "/messages/?session_id=abc"),
 }
+# announcements that name no endpoint at all: entering must raise (or, if it enters, the connection must be usable)
+BLANK_FORMS = {
+    "blank-data": "event: endpoint\ndata: \n\n",
+    "blank-data-no-space": "event: endpoint\ndata:\n\n",
+    "whitespace-data": "event: endpoint\ndata:    \n\n",
+    "blank-data-crlf": "event: endpoint\r\ndata: \r\n\r\n",
+}
 
 
 def _params():
@@ -112,6 +119,8 @@ def run_establish(ctl: explorer.Ctl, cfg: Dict[str, Any]) -> Dict[str, Any]:
     info: Dict[str, Any] = {}
     form = cfg.get("form", "abs-path")
     announce_at = cfg.get("announce_at")  # None = never
+    if kind == "blank-announce":
+        srv.stream.feed(BLANK_FORMS[form].encode())
     if kind == "announce":
         text, url = ENDPOINT_FORMS[form]
         if announce_at is None:
@@ -200,7 +209,7 @@ def run_establish(ctl: explorer.Ctl, cfg: Dict[str, Any]) -> Dict[str, Any]:
 # ---------------------------------------------------------------------------
 # (2) request life-cycle
 # ---------------------------------------------------------------------------
-RIDS = {"str": "a", "digits": "7", "int": 7}
+RIDS = {"str": "a", "digits": "7", "int": 7, "int0": 0, "empty-str": ""}
 
 
 def run_request(ctl: explorer.Ctl, cfg: Dict[str, Any]) -> Dict[str, Any]:
@@ -325,6 +334,76 @@ def run_request(ctl: explorer.Ctl, cfg: Dict[str, Any]) -> Dict[str, Any]:
     obs["t"] = [info["t_post_done"], info["t_event"]]
     obs["violations"] = viol
     return obs
+
+
+# ---------------------------------------------------------------------------
+# (2b) state left behind by a finished request must not swallow later server messages
+# ---------------------------------------------------------------------------
+RUN_AFTER = "vf.checks.c12:run_after"
+
+
+def run_after(ctl: explorer.Ctl, cfg: Dict[str, Any]) -> Dict[str, Any]:
+    from chuk_mcp.protocol.messages.json_rpc_message import JSONRPCRequest
+    from chuk_mcp.transports.sse.sse_client import sse_client
+
+    loop = new_loop(horizon=120)
+    q = seams.Quiescence(loop)
+    srv = Server(loop, {"kind": "ok"})
+    srv.stream.feed(ENDPOINT_FORMS["abs-path"][0].encode())
+    rid = RIDS[cfg["id"]]
+    first = cfg["first"]
+    later = {"server-request": {"jsonrpc": "2.0", "id": rid, "method": "ping"},
+             "stray-response": {"jsonrpc": "2.0", "id": rid, "result": {"late": True}},
+             "notification": {"jsonrpc": "2.0", "method": "notifications/message", "params": {"x": 1}}}[cfg["later"]]
+    got1: List[Any] = []
+    got2: List[Any] = []
+
+    async def main():
+        with patched_httpx(srv.handler):
+            async with sse_client(_params()) as (read, write):
+                await write.send(JSONRPCRequest(id=rid, method="tools/list"))
+                await q.settle()
+                resp = {"jsonrpc": "2.0", "id": rid, "result": {"ok": 1}}
+                if first == "200-body":
+                    srv.complete_post(0, {"kind": "status", "status": 200, "body": json.dumps(resp).encode()})
+                elif first == "500":
+                    srv.complete_post(0, {"kind": "status", "status": 500, "body": b"boom", "ctype": "text/plain"})
+                elif first == "200-nonjson":
+                    srv.complete_post(0, {"kind": "status", "status": 200, "body": b"<html>", "ctype": "text/html"})
+                elif first == "exception":
+                    srv.complete_post(0, {"kind": "exception"})
+                elif first == "202+event":
+                    srv.complete_post(0, {"kind": "status", "status": 202})
+                    await q.settle()
+                    srv.stream.feed(ev(resp).encode())
+                elif first == "202-silence":
+                    srv.complete_post(0, {"kind": "status", "status": 202})
+                    await asyncio.sleep(TIMEOUT + 0.5)
+                await q.settle()
+                got1.extend(dump_msg(m) for m in drain(read))
+                # later traffic on the event stream
+                srv.stream.feed(ev(later).encode())
+                srv.stream.feed(ev({"jsonrpc": "2.0", "method": "notifications/message", "params": {"after": True}}).encode())
+                await q.settle()
+                got2.extend(dump_msg(m) for m in drain(read))
+
+    status, val = loop.run_main(main())
+    errors = loop.collect_errors()
+    loop.abandon()
+    viol: List[dict] = []
+    if status != "ok":
+        return {"outcome": status, "violations": [{"sig": {"class": "did-not-finish", "part": "after"}, "msg": f"cfg={cfg}: {status} {val!r}"}]}
+    norm = [{k: v for k, v in m.items() if v is not None or k == "result"} for m in got2 if isinstance(m, dict)]
+    want = [later, {"jsonrpc": "2.0", "method": "notifications/message", "params": {"after": True}}]
+    if not (len(norm) == len(want) and all(strict_eq(a, b) for a, b in zip(norm, want))):
+        viol.append({"sig": {"class": "later-server-message-lost", "first": first, "later": cfg["later"]},
+                     "msg": f"cfg={cfg}: after the first request ended ({got1}), the server sent {want}; delivered {norm}"})
+    if len([m for m in got1 if isinstance(m, dict) and str(m.get("id")) == str(rid)]) != 1:
+        viol.append({"sig": {"class": "first-request-terminal-count", "first": first},
+                     "msg": f"cfg={cfg}: first request produced {got1}"})
+    if errors:
+        viol.append({"sig": {"class": "loop-error"}, "msg": f"{errors[:2]}"})
+    return {"outcome": f"{first}/{cfg['later']}/{len(norm)}", "violations": viol}
 
 
 # ---------------------------------------------------------------------------
@@ -550,6 +629,8 @@ def configs_for(tier: str):
         est.append({"kind": k})
         est.append({"kind": k, "connect_delay": 0.5})
     est.append({"kind": "never", "connect_delay": TIMEOUT + 0.5})
+    for f in BLANK_FORMS:
+        est.append({"kind": "blank-announce", "form": f})
     req = []
     for mode in ("200-body", "202+event", "202-silence", "500", "200-nonjson", "exception", "202+event+note"):
         for idk in RIDS:
@@ -582,7 +663,10 @@ def configs_for(tier: str):
 def run(tier: str, only=None) -> core.Result:
     res = core.Result("C12", "fault_enumeration")
     est, req, chunks, exits = configs_for(tier)
+    after = [{"first": f, "later": l, "id": i} for f in ("200-body", "500", "200-nonjson", "exception", "202+event", "202-silence")
+             for l in ("server-request", "stray-response", "notification") for i in RIDS]
     for name, ref, cfgs in (("establishment", RUN_EST, est), ("request-life-cycle", RUN_REQ, req),
+                            ("traffic-after-a-finished-request", RUN_AFTER, after),
                             ("event-stream-chunking", RUN_CHUNK, chunks), ("exit-paths", RUN_EXIT, exits)):
         if only and name not in only:
             continue
